@@ -97,7 +97,7 @@ def rule_ok(c, k):
 def run(ctx):
     if getattr(ctx, "replay", None):
         return ctx.replay_script(ctx.replay)
-    failed = ctx.lean_stage(["SfProps.C02"])
+    failed = ctx.lean_stage(["SfProps.C02", "SfProps.C02Float"])
     quick = ctx.tier == "quick"
     nrand = 20000 if quick else 400000
     rng = ctx.rng
